@@ -369,7 +369,11 @@ func runFullDiskCase(t *rapid.T, fc fullCfg) {
 			}
 		}
 		x.logf("filled: %d block(s) and %d inode(s) free", fs.Balloc.NumFree(), fs.Ialloc.NumFree())
-		St.Class(fmt.Sprintf("filled_to_%d_free_blocks", fs.Balloc.NumFree()))
+		if n := fs.Balloc.NumFree(); n <= 3 {
+			St.Class(fmt.Sprintf("filled_to_%d_free_blocks", n))
+		} else {
+			St.Class("fill_stopped_early_inodes_exhausted")
+		}
 	}
 	acts["fill2"] = acts["fill"]
 	acts["restart"] = func(t *rapid.T) {
